@@ -178,6 +178,11 @@ class Ctx:
             self.solver.add(t)
 
     def oblige(self, name, goal, **info):
+        if self.qscopes and info.get("kind") == "side":
+            # element-wise side conditions inside a quantifier body (e.g. REAL-model divisor != 0 for every element) are not
+            # generated per element; they are listed as an unchecked assumption of the REAL model
+            self.ghost.setdefault("skipped_side_obligations", set()).add(name)
+            return None
         g = self._guarded(tobool(goal))
         ob = Obligation(name, list(self.pc), g, info)
         ob.path = list(self.decisions[: self.pos])
